@@ -115,16 +115,28 @@ func streamHistory(r *hx.Rng, cfs []*cfile, bs *builtSet) {
 				continue
 			}
 			for _, md := range c.messages() {
-				for k := 0; k < nPer; k++ {
+				// scripted op sequences come first (operation classes: 0 assign, 5 Size, 7 Marshal/MarshalTo, 9 runtime
+				// Size, 10 Unmarshal -- with unknown fields --, 11 Reset/Clone): the orders in which the caches are
+				// written by one party and read by the other, which random histories only hit by luck
+				scripts := [][]int{{10, 9, 5, 7, 7}, {10, 5, 9, 7, 5}, {0, 9, 7, 11, 7, 5}, {10, 11, 9, 7}, {0, 0, 9, 5, 7, 9, 7}, {10, 7, 9, 5, 10, 9, 7}}
+				for k := 0; k < nPer+len(scripts); k++ {
 					h := &hist{google: google, md: md, mirror: dynamicpb.NewMessage(md), sized: map[string]bool{}}
 					hc := hcase{c: c, md: md, staleAt: -1, qAt: -1}
 					nops := 3 + r.Intn(maxOps-2)
+					var script []int
+					if k >= nPer {
+						script = scripts[k-nPer]
+						nops = len(script)
+					}
 					for i := 0; i < nops; i++ {
 						var tok string
 						var kind byte
 						choice := r.Intn(12)
 						if i == 0 {
 							choice = 0
+						}
+						if script != nil {
+							choice = script[i]
 						}
 						switch {
 						case choice < 5: // mutation
@@ -199,9 +211,19 @@ func streamHistory(r *hx.Rng, cfs []*cfile, bs *builtSet) {
 						case choice < 11:
 							v := randMessage(r, md, 2)
 							fillRequired(r, v, 3)
+							enc := canonical(v)
+							if r.Bool() || script != nil {
+								// fields the schema does not declare: kept as unknown bytes, counted by Size, re-emitted
+								g := &vgen{r: r}
+								for k := 1 + r.Intn(2); k > 0; k-- {
+									enc = append(enc, g.unknownField(md)...)
+								}
+								v = dynamicpb.NewMessage(md)
+								hx.Must((proto.UnmarshalOptions{AllowPartial: true, Resolver: corpusTypes}).Unmarshal(enc, v))
+							}
 							h.mirror = v
 							h.sized = map[string]bool{}
-							tok, kind = "U:"+hx.B(canonical(v)), 'U'
+							tok, kind = "U:"+hx.B(enc), 'U'
 						default:
 							if r.Bool() {
 								h.mirror = dynamicpb.NewMessage(md)
